@@ -1,6 +1,6 @@
 """C13  SR content items keep their values and parse back to the same type.
 
-Tie T: T13 (tables and coordinate-count decision trees of sr/value_types.py), T13e (enumerations of sr/enum.py).
+Tie T: T13s (tables and coordinate-count decision trees of sr/value_types.py), T13se (enumerations of sr/enum.py).
 Tie C: generated item trees of all 15 value types are built by the real constructors and by the Lean model
 (Model/SRItems.lean): ok-vs-refused, the attribute set written, the accessor values, and the class / refusal of
 parsing the plain dataset (in memory and through DICOM bytes).
@@ -19,7 +19,7 @@ from fractions import Fraction
 import numpy as np
 
 PROP = 'C13'
-TARGETS = ['T13', 'T13e']
+TARGETS = ['T13s', 'T13se']
 LEAN_MODULES = ['HdVerif.Props.C13']
 MODEL_MODULES = ['HdVerif.Model.SRItems']
 NAMESPACE = 'HdVerif.C13'
@@ -572,6 +572,182 @@ def _parse(ds, vt, rel, how):
     return seq[0]
 
 
+
+# ----------------------------------------------------------------------------------------------
+# model side
+
+def _da(v):
+    return '%04d%02d%02d' % tuple(v[:3])
+
+
+def _tm(v):
+    return '%02d%02d%02d' % tuple(v[:3]) + ('.%06d' % v[3] if v[3] else '')
+
+
+def _dts(v):
+    s = _da(v) + '%02d%02d%02d' % tuple(v[3:6]) + ('.%06d' % v[6] if v[6] else '')
+    if v[7] is not None:
+        m = abs(v[7])
+        s += ('+' if v[7] >= 0 else '-') + '%02d%02d' % (m // 60, m % 60)
+    return s
+
+
+def _codej(c):
+    return None if c is None else [c['v'], c['s'], c['m'], c['ver']]
+
+
+def model_spec(d):
+    """The specification in the driver's JSON form (dates / times as the DICOM strings DA / TM / DT define)."""
+    a = d['args']
+    vt = d['vt']
+    if vt == 'CODE':
+        args = {'value': _codej(a['value'])}
+    elif vt in ('TEXT', 'PNAME', 'UIDREF'):
+        args = {'value': a['value']}
+    elif vt == 'DATE':
+        args = {'value': _da(a['value'])}
+    elif vt == 'TIME':
+        args = {'value': _tm(a['value'])}
+    elif vt == 'DATETIME':
+        args = {'value': _dts(a['value'])}
+    elif vt == 'NUM':
+        args = {'value': _fr(a['value']), 'float': a['float'], 'unit': _codej(a['unit']), 'qualifier': _codej(a['qualifier'])}
+    elif vt == 'CONTAINER':
+        args = {'continuous': a['continuous'], 'template': a['template']}
+    elif vt == 'COMPOSITE':
+        args = {'cls': a['cls'], 'inst': a['inst']}
+    elif vt == 'IMAGE':
+        def lst(x):
+            return None if x is None else ([x] if isinstance(x, int) else list(x))
+        args = {'cls': a['cls'], 'inst': a['inst'], 'frames': lst(a['frames']), 'segments': lst(a['segments'])}
+    elif vt == 'WAVEFORM':
+        args = {'cls': a['cls'], 'inst': a['inst'], 'channels': a['channels']}
+    elif vt == 'SCOORD':
+        args = {'gt': a['gt'], 'dim': a['dim'], 'pts': [[_fr(x) for x in row] for row in a['pts']], 'origin': a['origin'],
+                'fiducial': a['fiducial']}
+    elif vt == 'SCOORD3D':
+        args = {'gt': a['gt'], 'dim': a['dim'], 'pts': [[_fr(x) for x in row] for row in a['pts']],
+                'frame_of_reference': a['frame_of_reference'], 'fiducial': a['fiducial']}
+    elif vt == 'TCOORD':
+        if a['positions'] is not None:
+            args = {'range': a['range'], 'kind': 'positions', 'values': list(a['positions'])}
+        elif a['offsets'] is not None:
+            args = {'range': a['range'], 'kind': 'offsets', 'values': [_fr(x) for x in a['offsets']]}
+        elif a['datetimes'] is not None:
+            args = {'range': a['range'], 'kind': 'datetimes', 'values': [_dts(v) for v in a['datetimes']]}
+        else:
+            args = {'range': a['range'], 'kind': None}
+    return {'vt': vt, 'name': _codej(d['name']), 'rel': d['rel'], 'args': args, 'children': [model_spec(c) for c in d['children']]}
+
+
+def _code_of_ds(c):
+    v = [getattr(c, k) for k in ('CodeValue', 'LongCodeValue', 'URNCodeValue') if k in c]
+    return [str(v[0]) if len(v) == 1 else '?', str(c.get('CodingSchemeDesignator', '?')), str(c.get('CodeMeaning', '?')),
+            None if 'CodingSchemeVersion' not in c else str(c.CodingSchemeVersion)]
+
+
+def _multi(v):
+    if v is None or (isinstance(v, str) and v == ''):
+        return []
+    if isinstance(v, (list, tuple)) or type(v).__name__ == 'MultiValue':
+        return list(v)
+    return [v]
+
+
+def abstract(ds):
+    """A pydicom data set in the model's abstract form: keyword -> value, one-item sequences structured."""
+    attrs, content = {}, None
+    for elem in ds:
+        kw = elem.keyword or str(elem.tag)
+        v = elem.value
+        if kw == 'ContentSequence':
+            content = [abstract(i) for i in v]
+        elif kw in ('ConceptNameCodeSequence', 'ConceptCodeSequence', 'NumericValueQualifierCodeSequence') and len(v) == 1:
+            attrs[kw] = {'code': _code_of_ds(v[0])}
+        elif kw == 'ReferencedSOPSequence' and len(v) == 1:
+            i = v[0]
+
+            def nums(k):
+                return None if k not in i else [int(x) for x in _multi(i[k].value)]
+            attrs[kw] = {'sop': [str(i.get('ReferencedSOPClassUID', '?')), str(i.get('ReferencedSOPInstanceUID', '?')),
+                                 nums('ReferencedFrameNumber'), nums('ReferencedSegmentNumber'), nums('ReferencedWaveformChannels')]}
+        elif kw == 'MeasuredValueSequence' and len(v) == 1 and 'NumericValue' in v[0] and 'MeasurementUnitsCodeSequence' in v[0]:
+            i = v[0]
+            attrs[kw] = {'meas': [_fr(float(i.NumericValue)), None if 'FloatingPointValue' not in i else _fr(i.FloatingPointValue),
+                                  _code_of_ds(i.MeasurementUnitsCodeSequence[0])]}
+        elif kw == 'ContentTemplateSequence' and len(v) == 1:
+            attrs[kw] = {'tpl': [str(v[0].get('MappingResource', '?')), str(v[0].get('TemplateIdentifier', '?'))]}
+        elif elem.VR == 'SQ':
+            attrs[kw] = {'s': f'<sequence of {len(v)}>'}
+        elif kw in ('GraphicData', 'ReferencedTimeOffsets'):
+            attrs[kw] = {'r': [_fr(float(x)) for x in _multi(v)]}
+        elif kw == 'ReferencedSamplePositions':
+            attrs[kw] = {'i': [int(x) for x in _multi(v)]}
+        elif kw == 'ReferencedDateTime':
+            attrs[kw] = {'ss': [str(x) for x in _multi(v)]}
+        else:
+            attrs[kw] = {'s': str(v)}
+    return {'attrs': attrs, 'content': content}
+
+
+def _abstract_json(a):
+    """dict form -> the driver's list form"""
+    return {'attrs': [[k, v] for k, v in a['attrs'].items()],
+            'content': None if a['content'] is None else [_abstract_json(c) for c in a['content']]}
+
+
+def _model_ds_dict(j):
+    return {'attrs': {k: v for k, v in j['attrs']}, 'content': None if j['content'] is None else [_model_ds_dict(c) for c in j['content']]}
+
+
+def observe_for_model(it):
+    """`observe`, with dates / times as the stored DICOM strings (the model keeps them opaque)."""
+    o = observe(it)
+
+    def fix(o, it):
+        vt = it.value_type.value
+        if vt == 'DATE':
+            o['value'] = str(it.Date)
+        elif vt == 'TIME':
+            o['value'] = str(it.Time)
+        elif vt == 'DATETIME':
+            o['value'] = str(it.DateTime)
+        elif vt == 'TCOORD' and 'datetimes' in (o['value'] or {}):
+            o['value']['datetimes'] = [str(x) for x in _multi(it.ReferencedDateTime)]
+        for oc, c in zip(o['children'], it.ContentSequence if 'ContentSequence' in it else []):
+            fix(oc, c)
+    fix(o, it)
+    return o
+
+
+def class_tree(it):
+    return {'class': type(it).__name__, 'children': [class_tree(c) for c in it.ContentSequence] if 'ContentSequence' in it else []}
+
+
+def _strip_keys(t):
+    return {'class': t['class'], 'children': [_strip_keys(c) for c in t['children']]}
+
+
+def _parse_probe(reqs, pend, case, label, ds, how, cls_name, root, sr):
+    """Parse `ds` on the implementation and queue the same parse for the model."""
+    import highdicom.sr as sr_mod
+    from highdicom.sr import value_types as vtm
+    try:
+        a = _abstract_json(abstract(ds))
+    except Exception as e:  # noqa: BLE001
+        return
+    try:
+        if how == 'class':
+            back = getattr(vtm, cls_name).from_dataset(ds)
+        else:
+            back = sr_mod.ContentSequence.from_sequence([ds], is_root=root, is_sr=sr)[0]
+        impl = ('ok', class_tree(back))
+    except Exception as e:  # noqa: BLE001
+        impl = ('err', _kind(e))
+    reqs.append(('parse', {'ds': a, 'how': how, 'cls': cls_name, 'root': root, 'sr': sr}))
+    pend.append(('parse', {'case': case, 'probe': label}, impl))
+
+
 def check_item(ctx, case, reqs=None, pend=None):
     d = case['item']
     bad = forbidden(d)
@@ -585,6 +761,15 @@ def check_item(ctx, case, reqs=None, pend=None):
         it, err = None, _kind(e)
     ntkey = None
     where = {'case': case}
+    if reqs is not None:
+        reqs.append(('build', model_spec(d)))
+        if it is None:
+            pend.append(('build', where, ('err', err), None, None))
+        else:
+            try:
+                pend.append(('build', where, ('ok', None), abstract(it), observe_for_model(it)))
+            except Exception as e:  # noqa: BLE001
+                pend.append(('build', where, ('ok', None), None, None))
     # ---- oracle 1: forbidden values are rejected, admissible ones accepted
     if bad and it is not None:
         ctx.fail(where, f'forbidden feature "{bad}" accepted by the constructor of {CLASS[vt]}', site='construct/' + bad)
@@ -619,6 +804,28 @@ def check_item(ctx, case, reqs=None, pend=None):
         import highdicom.sr as sr
         from highdicom.sr import value_types as vtm
         r = ctx.rng('damage', case['idx'])
+        if reqs is not None:
+            sr_flag = d['rel'] is not None
+            _parse_probe(reqs, pend, case, 'memory/sequence', plain_copy(it), 'sequence', CLASS[vt], False, sr_flag)
+            _parse_probe(reqs, pend, case, 'memory/class', plain_copy(it), 'class', CLASS[vt], False, sr_flag)
+            _parse_probe(reqs, pend, case, 'bytes/sequence', through_bytes(it, r.random() < 0.5), 'sequence', CLASS[vt], False, sr_flag)
+            _parse_probe(reqs, pend, case, 'memory/sequence-as-sr', plain_copy(it), 'sequence', CLASS[vt], False, True)
+            wrong = r.choice([v for v in VTS if v != vt])
+            _parse_probe(reqs, pend, case, 'wrong-class/' + wrong, plain_copy(it), 'class', CLASS[wrong], False, True)
+            for attr in REQUIRED[vt] + ['ValueType', 'ConceptNameCodeSequence']:
+                dsx = plain_copy(it)
+                del dsx[attr]
+                _parse_probe(reqs, pend, case, 'missing/' + attr + '/class', dsx, 'class', CLASS[vt], False, sr_flag)
+                _parse_probe(reqs, pend, case, 'missing/' + attr + '/sequence', plain_copy(dsx), 'sequence', CLASS[vt], False, sr_flag)
+            dsx = plain_copy(it)
+            dsx.ValueType = r.choice(['FOO', wrong])
+            _parse_probe(reqs, pend, case, 'value-type-swapped/' + dsx.ValueType, dsx, 'sequence', CLASS[vt], False, sr_flag)
+            if d['children']:
+                dsx = plain_copy(it)
+                k = r.randrange(len(dsx.ContentSequence))
+                what = r.choice(['RelationshipType', 'ValueType'] + REQUIRED[d['children'][k]['vt']])
+                del dsx.ContentSequence[k][what]
+                _parse_probe(reqs, pend, case, 'child-missing/' + what, dsx, 'class', CLASS[vt], False, sr_flag)
         for attr in REQUIRED[vt]:
             ds = plain_copy(it)
             del ds[attr]
@@ -687,8 +894,64 @@ def _corpus():
 def run(ctx):
     import hd_env  # noqa: F401
     cases = _corpus() + [gen_case(ctx, i) for i in range(ctx.n(450, 6000))]
+    reqs, pend = [], []
     for case in cases:
-        check_item(ctx, case)
+        check_item(ctx, case, reqs, pend)
+    _coplanar_law(ctx, reqs, pend)
+    answers = ctx.model(reqs)
+    if answers is None:
+        return
+    for p, ans in zip(pend, answers):
+        if 'proto_err' in ans:
+            ctx.disagree('L0', p[1], 'n/a', ans, 'model protocol error')
+            continue
+        if p[0] == 'build':
+            _, where, impl, ads, obs = p
+            model_ok = 'ok' in ans
+            if (impl[0] == 'ok') != model_ok:
+                ctx.disagree('L0', where, impl, ans if not model_ok else 'ok', 'constructor ok-vs-refused')
+                continue
+            if not model_ok:
+                continue
+            m = ans['ok']
+            if obs is not None:
+                x = _diff(json.loads(json.dumps(obs)), m['observe'])
+                if x:
+                    ctx.disagree('L0', where, x, '', 'accessor values')
+            if ads is not None:
+                x = _diff(json.loads(json.dumps(ads)), _model_ds_dict(m['ds']))
+                if x:
+                    ctx.disagree('L1', where, x, '', 'attributes written by the constructor')
+            if not m['wf'] or 'ok' not in m['parse']:
+                ctx.disagree('L0', where, 'accepted item', {'wf': m['wf'], 'parse': m['parse']}, 'model: built item not well-formed / does not parse back')
+        elif p[0] == 'parse':
+            _, where, impl = p
+            model = ('ok', _strip_keys(ans['ok'])) if 'ok' in ans else ('err', ans['err'])
+            if impl[0] != model[0]:
+                ctx.disagree('L0', where, impl, model, 'parse ok-vs-refused')
+            elif impl[0] == 'ok' and impl[1] != model[1]:
+                ctx.disagree('L0', where, impl, model, 'parsed classes')
+            ctx.hist('parse_probe', where['probe'].split('/')[0] + ('' if impl[0] == 'ok' else ':refused'))
+        elif p[0] == 'coplanar':
+            _, where, impl = p
+            if ans.get('ok') != impl:
+                ctx.disagree('L0', where, impl, ans, 'exact coplanarity vs are_points_coplanar at a safe margin')
+
+
+def _coplanar_law(ctx, reqs, pend):
+    """The law the model takes for granted: exact coplanarity = the library's test, on clearly separated inputs."""
+    from highdicom.spatial import are_points_coplanar
+    for i in range(ctx.n(60, 600)):
+        r = ctx.rng('coplanar', i)
+        n = r.choice([3, 4, 4, 5, 6, 9])
+        cop = r.random() < 0.5 or n < 4
+        pts = _plane_points(r, n, r.random() < 0.5 and (cop or n >= 5), cop)
+        impl = bool(are_points_coplanar(np.array(pts, dtype=float)))
+        reqs.append(('coplanar', {'pts': [[_fr(x) for x in p] for p in pts]}))
+        pend.append(('coplanar', {'pts': pts}, impl))
+        if impl != coplanar_exact(pts):
+            ctx.note(f'generator: exact coplanarity {coplanar_exact(pts)} but library says {impl} for {pts}')
+        ctx.hist('coplanar_law', f'n={n}/{"coplanar" if impl else "not"}')
 
 
 def replay(ctx, case):
